@@ -58,7 +58,8 @@ def _record(res: UnitResult, pid: str, name: str, params: Any, c: D.Ctl, mode: s
 
 
 def explore(res: UnitResult, pid: str, name: str, fn: Callable[[D.Ctl, Any], Any], params: Any, mode: str, *, seed: Any = 0, runs: int = 100,
-            bound: int = 2, max_runs: int = 20000, on_failed: str = "inconclusive", p_choices: tuple = (0.05, 0.15, 0.3)) -> None:
+            bound: int = 2, max_runs: int = 20000, on_failed: str = "inconclusive", p_choices: tuple = (0.05, 0.15, 0.3),
+            hot: tuple = ()) -> None:
     def scen(c: D.Ctl) -> Any:
         return fn(c, params)
 
@@ -78,6 +79,8 @@ def explore(res: UnitResult, pid: str, name: str, fn: Callable[[D.Ctl, Any], Any
         rng = random.Random("%s|%s|%s|%s|%d" % (seed, pid, name, show(params), i))
         if mode == "pct":
             st = D.PCTStrategy(rng, rng.choice((2, 3, 4)), est)
+        elif mode == "hot":
+            st = D.HotspotStrategy(rng, rng.choice((0.02, 0.05, 0.1)), hot, rng.choice((0.5, 0.8, 1.0)))
         else:
             st = D.RandomStrategy(rng, rng.choice(p_choices))
         c = D.run(scen, st)
